@@ -31,6 +31,11 @@ impl Enc for u64 {
         json!(*self)
     }
 }
+impl Enc for (u64, u64) {
+    fn enc(&self) -> Value {
+        json!([self.0, self.1])
+    }
+}
 
 pub fn bools(v: &Value) -> VecDeque<bool> {
     v.as_array()
@@ -237,7 +242,7 @@ fn run_push(case: &Value) -> Value {
     let items = items_of(case);
     let downs = case["downs"].as_array().cloned().unwrap_or_default();
     let nd = match comb {
-        "fanout" | "unzip" => 2,
+        "fanout" | "unzip" | "fanout_fold_keyed" => 2,
         "demux" => downs.len(),
         _ => 1,
     };
@@ -302,6 +307,16 @@ fn run_push(case: &Value) -> Value {
                     &mut ()
                 ),
             }
+        }
+        // consequence probe for finding multi-downstream/poll_finalize-after-Done (no Coq model):
+        // fanout(fold_keyed(.., downstream 0), downstream 1); items are (key, value) pairs
+        "fanout_fold_keyed" => {
+            let mut map = std::collections::HashMap::<u64, u64>::new();
+            let ps = items.iter().map(|i| (nth(i, 0), nth(i, 1))).collect::<Vec<_>>();
+            let r0 = Rec::<(u64, u64)>::new(downs.first(), &logs[0]);
+            let r1 = Rec::<(u64, u64)>::new(downs.get(1), &logs[1]);
+            let fk = push::FoldKeyed::new(&mut map, || 0u64, |acc: &mut u64, v: u64| *acc += v, r0);
+            drive!(push::fanout(fk, r1), ps, fuel, &mut ())
         }
         other => return json!({ "bad_case": format!("unknown combinator {other}") }),
     };
